@@ -550,14 +550,29 @@ def generate(unit, template_path, repo=None, canary=False):
                             fi.labels.append((sec, k, label, lprops or props, no))
                     if k in lowered:
                         # auto (ghost-only) bound + measure of the lowered loop; user clauses follow
-                        user = re.sub(r'^(\s*)invariant\b', r'\1', ltxt, count=1, flags=re.M) if re.search(r'^\s*invariant\b', ltxt, re.M) else ltxt
-                        dec = '' if re.search(r'^\s*decreases\b', ltxt, re.M) else f'\n        decreases __v{k}.len() - __i{k},'
-                        if re.search(r'^\s*decreases\b', user, re.M):
-                            m = re.search(r'^\s*decreases\b', user, re.M)
-                            user_inv, user_dec = user[:m.start()], user[m.start():]
-                        else:
-                            user_inv, user_dec = user, ''
-                        ltxt = f'        invariant __i{k} <= __v{k}.len(), ' + (auto_inv or '') + '\n' + user_inv.rstrip() + dec + ('\n' + user_dec if user_dec else '')
+                        # canonical clause order of a Verus loop: invariant_except_break, invariant, ensures, decreases
+                        secs = {'invariant_except_break': [], 'invariant': [], 'ensures': [], 'decreases': []}
+                        cur_sec = 'invariant'
+                        for l in ltxt.split('\n'):
+                            msec = re.match(r'^(\s*)(invariant_except_break|invariant|ensures|decreases)\b(.*)$', l)
+                            if msec and msec.group(2) in secs:
+                                cur_sec = msec.group(2)
+                                rest_l = msec.group(1) + ' ' * len(msec.group(2)) + msec.group(3)
+                                if rest_l.strip():
+                                    secs[cur_sec].append(rest_l)
+                            else:
+                                secs[cur_sec].append(l)
+                        rev_loop = f'let mut __i{k}: usize = __v{k}.len(); while __i{k} > 0' in body
+                        if not any(x.strip() for x in secs['decreases']):
+                            secs['decreases'] = [f'        __i{k},' if rev_loop else f'        __v{k}.len() - __i{k},']
+                        parts_l = []
+                        if any(x.strip() for x in secs['invariant_except_break']):
+                            parts_l.append('        invariant_except_break\n' + '\n'.join(secs['invariant_except_break']).rstrip())
+                        parts_l.append(f'        invariant __i{k} <= __v{k}.len(), ' + (auto_inv or '') + '\n' + '\n'.join(secs['invariant']).rstrip())
+                        if any(x.strip() for x in secs['ensures']):
+                            parts_l.append('        ensures\n' + '\n'.join(secs['ensures']).rstrip())
+                        parts_l.append('        decreases\n' + '\n'.join(secs['decreases']).rstrip())
+                        ltxt = '\n'.join(parts_l)
                     elif auto_inv:
                         if re.search(r'^\s*invariant\b', ltxt, re.M):
                             ltxt = re.sub(r'^(\s*)invariant\b', r'\1invariant ' + auto_inv, ltxt, count=1, flags=re.M)
